@@ -10,7 +10,7 @@ import traceback
 sys.path.insert(0, os.path.dirname(os.path.abspath(__file__)))
 import common  # noqa: E402
 
-GENERATORS = [('gen_pyapply', 'PyApply.v'), ('gen_parser', 'ParserTables.v'), ('gen_capply', 'CApply.v'), ('gen_cref', 'CRef.v'), ('gen_pyconsts', 'PyConsts.v')]
+GENERATORS = [('gen_pyapply', 'PyApply.v'), ('gen_parser', 'ParserTables.v'), ('gen_capply', 'CApply.v'), ('gen_cref', 'CRef.v'), ('gen_pyconsts', 'PyConsts.v'), ('gen_autoref', 'PyAutoref.v')]
 
 
 def main():
